@@ -19,7 +19,7 @@ def build_real(inp):
 
     N = inp["N"]
     shape = tuple(inp["shape"])
-    seg = None if inp.get("seg") is None else np.array(inp["seg"], dtype=np.int64).reshape(shape)
+    seg = None if inp.get("seg") is None else np.array(inp["seg"], dtype=np.dtype(inp.get("seg_dtype", "int64"))).reshape(shape)
     g = nx.DiGraph()
     for i in (reversed(range(N)) if inp.get("node_order") == "reversed" else range(N)):
         if inp["alive"][i]:
